@@ -218,9 +218,9 @@ class Delivery(core.Scenario):
         s = self.ws.get(self.A)
         if s is not None and s.accepted and variant.startswith('upgrade'):
             for r in self.polls[self.A]:
-                if r.step_start <= s.step_accept or not r.done:
+                if r.step_start < s.step_accept or not r.done:
                     continue
-                if self.fail_step is not None and r.step_done >= self.fail_step:
+                if self.fail_step is not None and r.step_done > self.fail_step:
                     continue      # served (at least partly) after the failing event was delivered
                 if variant == 'upgrade_ok' or variant == 'upgrade_no_pending_poll' or self.fail_step is not None:
                     if r.status == 200:
